@@ -357,7 +357,7 @@ func init() {
 	register("C12", "exploration", func(r *findings.Run) {
 		fm := functions.FunctionMap()
 		sLen := 2
-		pLen := r.Pick(2, 3)
+		pLen := 3 // also in the quick tier: overlap effects such as P%S against a string shorter than P+S need three symbols
 		fLen := 3
 		replLen := r.Pick(2, 3)
 		strs := c12Strings(sLen)
